@@ -65,6 +65,7 @@ type MyI8 int8
 type MyF32 float32
 type MyList []int
 type MyMap map[string]string
+type MyStrs []string
 
 // Hid has unexported fields in front of and between its exported ones (same exported shape as Rec: A string, B int64).
 type Hid struct {
@@ -112,6 +113,7 @@ var leaves = map[string]leafInfo{
 	"MyU64":    {reflect.TypeOf(MyU64(0)), []string{"uint64"}}, "MyU8": {reflect.TypeOf(MyU8(0)), []string{"uint8"}},
 	"MyI8": {reflect.TypeOf(MyI8(0)), []string{"int8"}}, "MyF32": {reflect.TypeOf(MyF32(0)), []string{"float32"}},
 	"MyList": {reflect.TypeOf(MyList(nil)), []string{"slice", "int"}},
+	"MyStrs": {reflect.TypeOf(MyStrs(nil)), []string{"slice", "string"}},
 	"MyMap":  {reflect.TypeOf(MyMap(nil)), []string{"map", "string"}},
 	"Rec":    {reflect.TypeOf(Rec{}), []string{"s2", "int64"}},
 	"Hid":    {reflect.TypeOf(Hid{}), []string{"s2", "int64"}},
@@ -209,6 +211,7 @@ func init() {
 	regLeaf[MyI8]("MyI8")
 	regLeaf[MyF32]("MyF32")
 	regLeaf[MyList]("MyList")
+	regLeaf[MyStrs]("MyStrs")
 	regLeaf[MyMap]("MyMap")
 	regLeaf[Rec]("Rec")
 	regLeaf[Hid]("Hid")
@@ -1041,7 +1044,7 @@ func handle(req N) (resp N) {
 
 var genCtors = []string{"ptr", "slice", "arr1", "arr2", "map", "s1", "s2", "iface"}
 var genLeaves = []string{"bool", "int8", "int16", "int32", "int64", "int", "uint8", "uint16", "uint32", "uint64", "uint",
-	"float32", "float64", "string", "time", "MyInt", "MyStr", "MyFloat", "MyBool", "Duration", "MyU64", "MyU8", "MyI8", "MyF32", "MyList", "MyMap", "Rec", "Hid"}
+	"float32", "float64", "string", "time", "MyInt", "MyStr", "MyFloat", "MyBool", "Duration", "MyU64", "MyU8", "MyI8", "MyF32", "MyList", "MyMap", "Rec", "Hid", "MyStrs"}
 
 func genCases(seed int64, n, depth int) []N {
 	rng := rand.New(rand.NewSource(seed))
